@@ -414,6 +414,39 @@ impl Driver for C07 {
                 }
                 out.tag("expression-ranges-checked");
             }
+            // (e) the analysis as the linearizer uses it (after the derived ranges were written into the domain and the
+            // analysis restricted to what the domain carries): every sub-expression range holds on the PUBLISHED box -
+            // a Boolean narrowed to [1, 1] is still published as {0, 1}, and the rewrites work with these ranges
+            {
+                let (db, published) = rooc::verif_bounds::derived_bounds_as_used(&model);
+                let ranges: Vec<(f64, f64)> = m.names.iter().map(|n| published.get(n).copied().unwrap_or((f64::NEG_INFINITY, f64::INFINITY))).collect();
+                let qs = box_points(&m, &ranges, &mut prng, 12);
+                for e in &sub_expressions(&m) {
+                    if matches!(e, E::Num(_)) {
+                        continue;
+                    }
+                    let (lo, hi) = db.bounds_of(&e.to_exp(&m.names));
+                    for qp in &qs {
+                        if !qp.iter().zip(&ranges).all(|(v, (l, h))| inside(v, *l, *h, &zero())) {
+                            continue;
+                        }
+                        if (0..m.n()).any(|i| m.types[i].is_discrete() && !qp[i].is_integer()) {
+                            continue;
+                        }
+                        let Ok(v) = e.eval(qp) else { continue };
+                        out.eval();
+                        if !inside(&v, lo, hi, &tol) && !reported {
+                            reported = true;
+                            out.violation(
+                                "expression-range-excludes-value-on-published-box",
+                                &format!("bounds_of({}) = [{lo}, {hi}] as the linearizer uses it, but the expression takes the value {} inside the published variable ranges", e.show(&m.names), show(&v)),
+                                detail(json!({"point": point_json(&m, qp), "published_ranges": ranges})),
+                            );
+                        }
+                    }
+                }
+                out.tag("expression-ranges-checked-on-published-box");
+            }
             if !feasible_pts.is_empty() {
                 out.nontrivial(hash_str(&format!("{:?}", m)));
             }
